@@ -1,5 +1,5 @@
 (* C17 — property theorems only. Each is closed by [exact] of a lemma proved in C17/Proofs.v. *)
-From Coq Require Import List Arith ZArith QArith.
+From Coq Require Import List Arith ZArith QArith Lia.
 Import ListNotations.
 From AgileV Require Import C17.Model C17.Proofs.
 Local Open Scope Q_scope.
@@ -37,6 +37,17 @@ Theorem gae_rows_is_columnwise : forall g l C rs vs ds nv nd c,
   /\ length (advs_of (gae_rows g l rs vs ds nv nd)) = length rs.
 Proof. exact gae_rows_col_advs. Qed.
 Print Assumptions gae_rows_is_columnwise.
+
+(* ... hence, for the tensor the code calls `advantages`: entry [t][c] is the estimate A_t of column c, for every
+   number of columns (environments, agents x environments), every rollout length, gamma and lambda *)
+Theorem gae_rows_is_def : forall g l C rs vs ds nv nd c t,
+  wf C rs -> wf C vs -> wf C ds -> length nv = C -> length nd = C ->
+  length rs = length vs -> length rs = length ds -> (c < C)%nat -> (t < length rs)%nat ->
+  nth c (nth t (advs_of (gae_rows g l rs vs ds nv nd)) []) 0 ==
+  adv_def g l (fun i => nth c (nth i rs []) 0)
+              (ext (col 0 c vs) (nth c nv 0)) (ext (col 0 c ds) (nth c nd 0)) (length rs - t) t.
+Proof. exact gae_rows_is_def_lemma. Qed.
+Print Assumptions gae_rows_is_def.
 
 (* Episode boundaries, one column, split form: if a new episode starts right after the block r1 (the done flag
    that follows it is 1), the estimates of r1 do not depend on anything that comes after it
@@ -161,6 +172,24 @@ Theorem done_convention : forall env_dones t,
 Proof. exact done_convention_lemma. Qed.
 Print Assumptions done_convention.
 
+(* Both halves composed, in the words of the property: if the environment ended an episode with step k (of one
+   column), then the estimates of steps 0..k computed from the rollout recorded by the training loop depend only on the
+   rewards and values of steps 0..k and the flags of steps 0..k-1 — on nothing that follows the start of the new
+   episode (later rewards, values, flags, rollout length, next_value). *)
+Theorem episode_end_cuts_estimates : forall g l rs vs env_dones nv rs' vs' env_dones' nv' k,
+  length rs = length vs -> length rs = length env_dones ->
+  length rs' = length vs' -> length rs' = length env_dones' ->
+  (k < length rs)%nat -> (k < length rs')%nat ->
+  firstn (S k) rs = firstn (S k) rs' -> firstn (S k) vs = firstn (S k) vs' ->
+  firstn k env_dones = firstn k env_dones' ->
+  nth k env_dones 0 == 1 -> nth k env_dones' 0 == 1 ->
+  let '(ds, nd) := record_dones 0 env_dones in
+  let '(ds', nd') := record_dones 0 env_dones' in
+  eqlQ (firstn (S k) (advs_of (gae_col g l rs vs ds nv nd)))
+       (firstn (S k) (advs_of (gae_col g l rs' vs' ds' nv' nd'))).
+Proof. exact episode_end_cuts_estimates_lemma. Qed.
+Print Assumptions episode_end_cuts_estimates.
+
 (* behaviours that violate the property (each found on a tree of /repo, see DESIGN / design.d/C17.md) *)
 Theorem ippo_old_order_refuted :
   exists (obs : list (list (list Z))) (R : list (list (list Q))) (nv : list (list Q)),
@@ -202,6 +231,17 @@ Example no_leak_nonvacuous :
   eqlQ (firstn 2 (advs_of (gae_col (1#2) 1 ([1; 1] ++ [1]) ([0; 0] ++ [0]) ([0; 0] ++ [1]) 8 0)))
        (firstn 2 (advs_of (gae_col (1#2) 1 ([1; 1] ++ [7; 7]) ([0; 0] ++ [3; 3]) ([0; 0] ++ [1; 0]) 100 1))).
 Proof. apply (gae_no_leak (1#2) 1 [1; 1] [0; 0] [0; 0]); try reflexivity; discriminate. Qed.
+
+Example episode_end_nonvacuous :
+  (* the environment ends an episode with step 1; everything afterwards differs, also the rollout length *)
+  let '(ds, nd) := record_dones 0 [0; 1; 0] in
+  let '(ds', nd') := record_dones 0 [0; 1; 1; 0; 1] in
+  eqlQ (firstn 2 (advs_of (gae_col (1#2) (3#4) [1; 2; 3] [4; 5; 6] ds 7 nd)))
+       (firstn 2 (advs_of (gae_col (1#2) (3#4) [1; 2; 9; 9; 9] [4; 5; 8; 8; 8] ds' 70 nd'))).
+Proof.
+  apply (episode_end_cuts_estimates (1#2) (3#4) [1; 2; 3] [4; 5; 6] [0; 1; 0] 7 [1; 2; 9; 9; 9] [4; 5; 8; 8; 8] [0; 1; 1; 0; 1] 70 1);
+    try reflexivity; cbn; lia.
+Qed.
 
 Example ippo_rows_example :
   (* T = 2, two agents, one env: rows are (agent 0, t 0), (agent 0, t 1), (agent 1, t 0), (agent 1, t 1) *)
